@@ -76,6 +76,12 @@ pub fn gen(out: &mut Out, _sub: &str) {
         let gen_seed = rng.next();
         let kind = match rng.below(8) { 0 => "lkm", 1 => "rel", _ => "exec" };
         let nsel = out.size(3, 4);
+        // systematic part: every check alone, spread round-robin over the inputs
+        if kind != "lkm" {
+            let m = cli::ALL_MODULES[(i % cli::ALL_MODULES.len() as u64) as usize];
+            inputs.push(json!({"gen_seed": gen_seed, "kind": kind, "dir": dir, "id": format!("c21_{}_s", i),
+                               "has_partial": true, "partial_raw": m}));
+        }
         for k in 0..nsel {
             let kk = if k < 2 { k } else { 2 + rng.below(2) };
             let sel = selection(&mut rng, kk, kind == "lkm");
